@@ -974,8 +974,14 @@ def json_compat_obj_decode(data_type, obj, caller_permissions=None,
         return decoder.make_stone_friendly(
             data_type, obj, True)
     else:
-        return decoder.json_compat_obj_decode_helper(
+        ret = decoder.json_compat_obj_decode_helper(
             data_type, obj)
+        if isinstance(data_type, (bv.List, bv.Map, bv.Nullable)):
+            # Primitives nested in these are normally validated when they
+            # are assigned to a struct field or a union; at the top level
+            # there is no such container, so validate here.
+            ret = data_type.validate(ret)
+        return ret
 
 def _strftime(dt, fmt):
     return dt.strftime(fmt)
